@@ -381,7 +381,20 @@ def run_harness(unit, h, src_c, workdir, label_by_line, mode='proof', solver=Non
         # UNKNOWN / ERROR: CBMC could not decide these (seen when a check raised while evaluating the
         # requires clauses fails first): undecided, never a refutation
         if any(r['status'] in ('UNKNOWN', 'ERROR') for r in res):
-            status = 'toolerror'
+            # ... unless the failing check sits in the CODE (a genuine safety failure, after which CBMC leaves the rest
+            # undecided): then the FAILUREs stand and the UNKNOWNs are ignored
+            spec_lines = set(i for i, l in enumerate(open(src_c), 1) if re.search(r'__CPROVER_(requires|ensures|assigns|loop_invariant|decreases)\(', l))
+            hard = [r for r in res if r['status'] == 'FAILURE' and 'VACUITY_CANARY' not in r['desc']]
+            in_spec = [r for r in hard if r['file'] and os.path.basename(r['file']) == os.path.basename(src_c) and r['line'] in spec_lines
+                       and not re.search(r'postcondition|loop_invariant|loop_decreases|precondition', r['id'])]
+            if in_spec or not hard:
+                status = 'toolerror'
+            else:
+                status = 'failed'
+                for r in res:
+                    if r['status'] in ('UNKNOWN', 'ERROR'):
+                        r['status'] = 'SUCCESS'
+                        r['undecided_after_failure'] = True
     else:
         status = 'toolerror'
     src_name = os.path.basename(src_c)
